@@ -78,3 +78,10 @@ pub fn vec_append_model<T, A: Allocator>(v: &mut Vec<T, A>, other: &mut Vec<T, A
         v.push(x);
     }
 }
+
+/// Builds a `&str` from bytes the harness has constructed as valid UTF-8 *by construction*
+/// (std's `from_utf8` validation - word-at-a-time loads, alignment arithmetic - is very expensive
+/// to execute symbolically and is not under test).
+pub fn str_from_valid_utf8(b: &[u8]) -> &str {
+    unsafe { std::str::from_utf8_unchecked(b) }
+}
